@@ -8,6 +8,7 @@
         the shell of each polygon is its first ring (start view of the polygon offsets, unmodified); a flipped ring has its X stride and
         its Y stride reversed over the same [start, stop).
  C15.d  from_geopandas(orient=True) calls it.
+ C15.g  the result carries no state of the input (no attribute stores in oriented(); C16.c/d at oriented sites).
 Does not decide: the sign convention, idempotence, effect on areas and intersections.
 """
 import ast
@@ -245,6 +246,19 @@ def run(P, R, tier):
         R.check(not mut, 'C15.a', m, None, f'{m.qualname} stores into neither the array nor an argument', f'{m.qualname} stores into {sorted(mut)}: oriented() modifies the input array',
                 construct=f'{m.qualname} effects')
     n = common.fresh_arguments(P, R, 'C15.a', callee_filter=lambda g: g is op, floor=2)
+    # C15.g: the result is a freshly built array: nothing derived from the input (spatial index, memoised measures, ...) is stored onto it.
+    # Signed areas and ring order differ between input and result, so any carried-over state describes the wrong rings.
+    for m in meths:
+        stores = [s_ for s_ in walk_own(m.node) if isinstance(s_, (ast.Assign, ast.AugAssign, ast.AnnAssign))
+                  for t_ in (s_.targets if isinstance(s_, ast.Assign) else [s_.target])
+                  for a_ in ast.walk(t_) if isinstance(a_, ast.Attribute) and isinstance(a_.ctx, ast.Store)]
+        sets = [c_ for c_ in astq.own_calls(m) if norm(c_.func) in ('setattr', 'object.__setattr__') or (isinstance(c_.func, ast.Attribute) and c_.func.attr in ('__setattr__', '__dict__.update'))]
+        bad = stores + sets
+        R.check(not bad, 'C15.g', m, bad[0] if bad else None, f'{m.qualname} stores no attribute on the array it returns (no state of the input is carried over)',
+                f'`{norm(bad[0]) if bad else ""}` in {m.qualname} stores state onto an array object: the result of oriented() has other ring directions (and signed areas) than the input, '
+                'state derived from the input does not describe it', construct=f'{m.qualname} attribute stores')
+    common.forward(P, R, 'C16', ['C16.c', 'C16.d'], 'C15.g', 'the oriented array is a fresh array of the receiver\'s class, without cached state', floor=0,
+                   only=lambda o: 'oriented' in o.site or 'oriented' in o.detail)
     R.check('values' in E.mutated_params(op) or bool(E.mutated_params(op)), 'C15.a', op, None, 'orient_polygons is recognised as an in-place kernel (stores into its value buffer)',
             'orient_polygons no longer stores into its argument (kernel changed shape)', nontrivial=False, construct='orient_polygons in place')
 
